@@ -218,6 +218,10 @@ def gen_contact_scene(rng, nspheres=None, free_flight=False, allow_s2s=True, fri
         if kind == "rigid":
             x = 0.4 * b["m"] * rad**2
             b["theta"] = [x, x, x]
+            if not free_flight and rng.random() < 0.4:
+                # not a homogeneous ball: anisotropic inertia (friction directions then see different effective masses)
+                f = rng.uniform(0.5, 2.0, 3)
+                b["theta"] = [float(x * f[0] * (f[1] + f[2]) / 2), float(x * f[1] * (f[0] + f[2]) / 2), float(x * f[2] * (f[0] + f[1]) / 2)]
             b["p"] = rot.rand_quat(rng).tolist()
             b["w"] = (rng.normal(size=3) * float(rng.uniform(0, 6))).tolist()
         scene["bodies"].append(b)
